@@ -15,4 +15,5 @@ let () =
   | _ :: "syn" :: _ -> Synmain.run ()
   | _ :: "lex" :: _ -> Lexmain.run ()
   | _ :: "simp" :: _ -> Runmain.run ~simp:true ()
+  | _ :: "quiet" :: _ -> Runmain.run ~quiet:true ()
   | _ -> prerr_endline "usage: zwmodel int [--spec] | cov"; exit 2
